@@ -78,7 +78,14 @@ pub fn run(tier: Tier) -> i32 {
     let lang = Language::english();
     let alphabet: Vec<String> = ["o", "five", "twenty", "xyzzy", ",", "O", "zero", "point", "hundred", ".", "plus", "-", "o'clock", "third", "and", "twenty-one", "thousand"].iter().map(|s| s.to_string()).collect();
     let alphabet: Vec<String> = alphabet.into_iter().take(tier.pick(17, 14)).collect();
-    let acc = explore::all_sequences2(&alphabet, k, |syms, acc| {
+    // inflected neighbours (plural scale word, plural unit, plural ordinal, an ordinal scale word): a smaller alphabet, depth 4
+    let inflected: Vec<String> = ["o", "five", "xyzzy", ",", "thousands", "fives", "thirds", "hundredth", "and"].iter().map(|s| s.to_string()).collect();
+    let acc_infl = explore::all_sequences2(&inflected, 4, |syms, acc| {
+        if syms.iter().any(|s| *s == "o") {
+            one_text(&ctx, acc, &lang, &syms.join(" "));
+        }
+    });
+    let mut acc = explore::all_sequences2(&alphabet, k, |syms, acc| {
         if !syms.iter().any(|s| s.eq_ignore_ascii_case("o")) {
             return;
         }
@@ -117,8 +124,9 @@ pub fn run(tier: Tier) -> i32 {
     let cov = json!({
         "exhaustive": true,
         "rule": "every English token sequence of length <= k over the alphabet that contains an 'o', in four renderings (spaces everywhere, no-break spaces everywhere, punctuation glued to the previous word, no spaces around punctuation), at every threshold; compared with the same text where each 'o' is replaced by 'zero' or by an ordinary word according to the statement's neighbour rule; non-trivial = texts with at least one 'o' token",
-        "bounds": {"alphabet": alphabet, "depth": k},
+        "bounds": {"alphabet": alphabet, "depth": k, "inflected_neighbours_alphabet": inflected, "inflected_depth": 4},
         "thresholds": T.iter().map(|t| thr_name(*t)).collect::<Vec<_>>(),
     });
+    acc.merge(acc_infl);
     ctx.finish(acc, cov, vec!["a neighbour 'is a number word' iff it validates as a number on its own".into()])
 }
